@@ -322,6 +322,7 @@ type cfgGen struct {
 	t      *rapid.T
 	varexp bool
 	refs   []*gen.Tree
+	dyn    []*gen.TD // dynamic types of the interface-held pre-filled values
 }
 
 // deliver returns the setting itself or, with VarExp, sometimes a reference
@@ -398,21 +399,24 @@ func (g *cfgGen) leaf(td *gen.TD) *gen.Tree {
 	panic("c04: no setting for leaf kind " + td.Kind)
 }
 
-// value draws a setting for a value of type td.
-func (g *cfgGen) value(td *gen.TD) *gen.Tree {
+// value draws a setting for a value of type td; tv is the pre-filled value at
+// that position (nil: none), which decides the settings of interface values.
+func (g *cfgGen) value(td *gen.TD, tv *gen.TV) *gen.Tree {
 	t := g.t
 	sh := td.Shape()
 	if sh.IsLeaf() {
 		return g.deliver(g.leaf(td))
 	}
 	switch sh.Kind {
+	case "iface":
+		return g.ifaceSetting(tv)
 	case "ptr":
-		return g.value(sh.Elem)
+		return g.value(sh.Elem, elemTV(tv, 0))
 	case "slice", "array":
-		return g.list(sh, true)
+		return g.list(sh, true, tv)
 	case "map":
 		o := gen.Obj()
-		g.entries(sh, o)
+		g.entries(sh, o, tv)
 		return g.deliver(o)
 	case "struct":
 		if f := inlineCollField(sh); f != nil {
@@ -420,18 +424,22 @@ func (g *cfgGen) value(td *gen.TD) *gen.Tree {
 			// an object mentions its named fields and leaves the list empty, which an inline array does not accept
 			if fsh := f.T.Shape(); fsh.Kind != "map" {
 				named := false
+				var ftv *gen.TV
 				for i := range sh.Fields {
 					if x := &sh.Fields[i]; !isInline(x) && !x.Ignore && !x.Unexp && needsSetting(x.T) {
 						named = true
 					}
+					if &sh.Fields[i] == f {
+						ftv = elemTV(tv, i)
+					}
 				}
 				if !named && ((fsh.Kind == "array" && fsh.N > 0) || rapid.IntRange(0, 5).Draw(t, "aslist") != 0) {
-					return g.list(fsh, false)
+					return g.list(fsh, false, ftv)
 				}
 			}
 		}
 		o := gen.Obj()
-		g.fields(sh, o)
+		g.fields(sh, o, tv)
 		return g.deliver(o)
 	}
 	panic("c04: no setting for kind " + sh.Kind)
@@ -439,12 +447,12 @@ func (g *cfgGen) value(td *gen.TD) *gen.Tree {
 
 // list draws a list setting for a slice or array type (single: a primitive
 // may stand for a list of length one).
-func (g *cfgGen) list(sh *gen.TD, single bool) *gen.Tree {
+func (g *cfgGen) list(sh *gen.TD, single bool, tv *gen.TV) *gen.Tree {
 	t := g.t
 	l := gen.List()
 	if sh.Kind == "array" {
 		for i := 0; i < sh.N; i++ {
-			l.Vals = append(l.Vals, g.value(sh.Elem))
+			l.Vals = append(l.Vals, g.value(sh.Elem, elemTV(tv, i)))
 		}
 		return g.deliver(l)
 	}
@@ -453,7 +461,7 @@ func (g *cfgGen) list(sh *gen.TD, single bool) *gen.Tree {
 	}
 	n := rapid.IntRange(0, 3).Draw(t, "len")
 	for i := 0; i < n; i++ {
-		l.Vals = append(l.Vals, g.value(sh.Elem))
+		l.Vals = append(l.Vals, g.value(sh.Elem, elemTV(tv, i)))
 	}
 	return g.deliver(l)
 }
@@ -461,7 +469,7 @@ func (g *cfgGen) list(sh *gen.TD, single bool) *gen.Tree {
 // entries adds settings for up to two keys of a map type to o: other keys than
 // the pre-filled / InitDefaults ones as a rule, sometimes the very keys the
 // catalogue's InitDefaults methods insert.
-func (g *cfgGen) entries(sh *gen.TD, o *gen.Tree) {
+func (g *cfgGen) entries(sh *gen.TD, o *gen.Tree, tv *gen.TV) {
 	t := g.t
 	n := rapid.IntRange(0, 2).Draw(t, "nkeys")
 	for i := 0; i < n; i++ {
@@ -471,13 +479,13 @@ func (g *cfgGen) entries(sh *gen.TD, o *gen.Tree) {
 		}
 		k := rapid.SampledFrom(pool).Draw(t, "key")
 		if o.Get(k) == nil {
-			o.Put(k, g.value(sh.Elem))
+			o.Put(k, g.value(sh.Elem, entryTV(tv, k)))
 		}
 	}
 }
 
 // fields mentions a random subset of the struct's fields in o.
-func (g *cfgGen) fields(sh *gen.TD, o *gen.Tree) {
+func (g *cfgGen) fields(sh *gen.TD, o *gen.Tree, tv *gen.TV) {
 	t := g.t
 	for i := range sh.Fields {
 		f := &sh.Fields[i]
@@ -487,9 +495,9 @@ func (g *cfgGen) fields(sh *gen.TD, o *gen.Tree) {
 		if isInline(f) {
 			switch fsh := f.T.Shape(); fsh.Kind {
 			case "struct":
-				g.fields(fsh, o)
+				g.fields(fsh, o, elemTV(tv, i))
 			case "map":
-				g.entries(fsh, o) // an inline map takes the keys of the enclosing namespace
+				g.entries(fsh, o, elemTV(tv, i)) // an inline map takes the keys of the enclosing namespace
 			}
 			// (named entries are not unpacked into an inline list)
 			continue
@@ -504,7 +512,7 @@ func (g *cfgGen) fields(sh *gen.TD, o *gen.Tree) {
 		case 5:
 			o.Put(f.ConfigName(), gen.Nil()) // a nil setting counts as not mentioned
 		default:
-			o.Put(f.ConfigName(), g.value(f.T))
+			o.Put(f.ConfigName(), g.value(f.T, elemTV(tv, i)))
 		}
 	}
 }
@@ -529,6 +537,15 @@ func genCase(t *rapid.T) Case {
 	}
 	c.T = gen.GenStructTD(t, cfg, runlog.Pick(3, 4))
 	enrich(t, c.T)
+	// values reached through an interface: in 1 case of 3 some fields and collection elements are of type interface{}
+	ifaces := rapid.IntRange(0, 2).Draw(t, "ifaces") == 0
+	if ifaces {
+		n := 0
+		addIfaces(t, c.T, &n)
+		if n == 0 {
+			c.T.Fields = append(c.T.Fields, gen.FD{Name: "FI", Tag: "fi", T: ifaceType(t)})
+		}
+	}
 	ctr := 1000
 	wrapInline(t, c.T, &ctr)
 	assignTags(t, c.T, 2)
@@ -541,12 +558,15 @@ func genCase(t *rapid.T) Case {
 		c.T.Fields = append(c.T.Fields, f)
 		assignTags(t, c.T, 0)
 	}
-	if rapid.IntRange(0, 5).Draw(t, "zero") != 0 {
+	if rapid.IntRange(0, 5).Draw(t, "zero") != 0 || (ifaces && rapid.Bool().Draw(t, "ifzero")) {
 		c.Pre = gen.GenTV(t, cfg, c.T, false)
+		if ifaces {
+			c.typedIfaces(t, cfg, c.T, c.Pre, 2)
+		}
 	}
-	g := &cfgGen{t: t, varexp: c.VarExp}
+	g := &cfgGen{t: t, varexp: c.VarExp, dyn: c.Dyn}
 	c.Cfg = gen.Obj()
-	g.fields(c.T, c.Cfg)
+	g.fields(c.T, c.Cfg, c.Pre)
 	for i, r := range g.refs {
 		c.Cfg.Put(fmt.Sprintf("r%d", i), r)
 	}
@@ -559,7 +579,15 @@ func genCase(t *rapid.T) Case {
 // list. (No references: the settings rN would be entries of the target.)
 func genCollTarget(t *rapid.T, c Case, cfg *gen.TDCfg) Case {
 	c.VarExp = false
-	switch rapid.IntRange(0, 5).Draw(t, "topkind") {
+	switch rapid.IntRange(0, 8).Draw(t, "topkind") {
+	case 6, 7:
+		// generic targets pre-filled with typed values
+		c.T = &gen.TD{Kind: rapid.SampledFrom([]string{"map", "map", "slice"}).Draw(t, "topif"), Elem: &gen.TD{Kind: "iface"}}
+	case 8:
+		c.T = &gen.TD{Kind: rapid.SampledFrom([]string{"map", "slice", "array"}).Draw(t, "topifc"), Elem: ifaceType(t)}
+		if c.T.Kind == "array" {
+			c.T.N = rapid.IntRange(1, 2).Draw(t, "n")
+		}
 	case 0, 1:
 		c.T = &gen.TD{Kind: "map", Elem: validatedElem(t)}
 	case 2:
@@ -572,16 +600,17 @@ func genCollTarget(t *rapid.T, c Case, cfg *gen.TDCfg) Case {
 	ctr := 1000
 	wrapInline(t, c.T, &ctr)
 	assignTags(t, c.T, 1)
-	if rapid.IntRange(0, 3).Draw(t, "zero") != 0 {
+	if rapid.IntRange(0, 3).Draw(t, "zero") != 0 || hasIface(c.T) {
 		c.Pre = gen.GenTV(t, cfg, c.T, false)
+		c.typedIfaces(t, cfg, c.T, c.Pre, 2)
 	}
-	g := &cfgGen{t: t}
+	g := &cfgGen{t: t, dyn: c.Dyn}
 	sh := c.T.Shape()
 	if sh.Kind == "map" {
 		c.Cfg = gen.Obj()
-		g.entries(sh, c.Cfg)
+		g.entries(sh, c.Cfg, c.Pre)
 	} else {
-		c.Cfg = g.list(sh, false)
+		c.Cfg = g.list(sh, false, c.Pre)
 	}
 	return c
 }
